@@ -21,6 +21,7 @@ var verifC07Tables = [][]verifRouteDef{
 	{{`/a/{v:\d+}`, []string{"POST"}}, {"/a/{w}", []string{"GET", "POST"}}},
 	{{`/{v:\d+}`, []string{"POST"}}, {"/{w}", []string{"GET", "POST", "HEAD"}}},
 	{{"/a/{v}", []string{"GET", "POST"}}, {`/a/{w:\d+}`, []string{"POST"}}, {"/a/{u}", []string{"HEAD"}}},
+	{{"/*", []string{"GET"}}, {"/a/{v}", []string{"POST"}}},
 }
 
 func verifNamedTable(r *Router, defs []verifRouteDef) {
@@ -68,14 +69,15 @@ func verifHarness_C07_twin() {
 	defs := verifC07Tables[verifCfg()%len(verifC07Tables)]
 	capacity := verifChoice("cap", 3)
 	notAllowed := verifChoice("405", 2) == 1
-	var rOff, rOn *Router
+	var base []func(*Router)
 	if notAllowed {
-		rOff = New(HandleMethodNotAllowed)
-		rOn = New(HandleMethodNotAllowed, CachingWithNum(uint16(capacity)))
-	} else {
-		rOff = New()
-		rOn = New(CachingWithNum(uint16(capacity)))
+		base = append(base, HandleMethodNotAllowed)
 	}
+	if verifCfg()%len(verifC07Tables) == len(verifC07Tables)-1 {
+		base = append(base, HandleFallbackRoute) // (the table with a "/*" route)
+	}
+	rOff := New(base...)
+	rOn := New(append(append([]func(*Router){}, base...), CachingWithNum(uint16(capacity)))...)
 	verifNamedTable(rOff, defs)
 	verifNamedTable(rOn, defs)
 	// all request paths of the history have the same (forked) length, so that
